@@ -180,12 +180,14 @@ func (j *cacheJanitor[MetadataT]) evict(maxCacheBytes int64) {
 		size, lastAccess := meta.Size, meta.LastAccess
 		lock.RUnlock()
 
-		timeSinceAccess := now.Sub(lastAccess).Milliseconds()
+		timeSinceAccess := now.Sub(lastAccess)
 		sizeWeight := size / bytesize.UnitM
 
 		// Calculate eviction priority (highest = evict first)
-		// Factors: age since last access + file size weight
-		priority := timeSinceAccess + (sizeWeight * 100) // Give size significant weight
+		// Factors: age since last access + file size weight (100 ms per MiB). The age counts in full
+		// resolution: rounded to milliseconds, entries used within the same millisecond (a burst)
+		// tied, and which of them went first was left to the order of the map.
+		priority := int64(timeSinceAccess) + sizeWeight*100*int64(time.Millisecond) // Give size significant weight
 
 		candidates = append(candidates, entryForEviction{
 			key:        key,
